@@ -158,6 +158,8 @@ def cat(op, inputs, dim=0):
             and t2.axis is None
             and torch.equal(t1._scale, t2._scale)
             and t1.qtype == t2.qtype
+            # The result is built on the scale of the first tensor: its dtype must be the dtype of both
+            and t1.dtype == t2.dtype
         ):
             if t1.qtype.is_floating_point or t2.qtype.is_floating_point:
                 # Cat is not supported for float8
@@ -357,6 +359,8 @@ def stack(op, inputs, dim=0):
             and t2.axis is None
             and torch.equal(t1._scale, t2._scale)
             and t1.qtype == t2.qtype
+            # The result is built on the scale of the first tensor: its dtype must be the dtype of both
+            and t1.dtype == t2.dtype
         ):
             out_data = op([t1._data, t2._data], dim)
             # The result owns its scale
